@@ -10,7 +10,8 @@ the padding error exactly one error is sent at the RDH's offset, the FSM is
 reset and no word is checked (R12.3).  Oracle: oracles/payload_cut.json.
 Not decided: payloads whose layout disagrees with the header's data format."""
 from ..mir import callee_of, origin_calls, show_origin
-from ..thir import Evaluator, Sym, ckey, vkey, Unsupported
+import re
+from ..thir import Evaluator, Sym, Agg, Bits, ckey, vkey, Unsupported
 from ..facts import where
 from .c07 import root_param
 
@@ -89,35 +90,42 @@ def run(ctx, rep):
         rep.missing("R12.1", p)
     p = L + "chunkify_payload"
     if p in f.fns:
-        b = cg.body(p)
+        # decided per data format × length of the trailing 0xFF run (0..=16): which slice is cut into chunks of which size
         tb = ev.tb(p)
-        sizes_by_arm = {}
-        for i, n in tb.walk():
-            if n["k"] == "Match":
-                for a in n["arms"]:
-                    arm = tb.arms[a]
-                    v = arm["pat"].get("vname")
-                    ks = []
-                    for j, c in tb.calls(arm["body"]):
-                        if (c.get("fn") or "").endswith("<impl [T]>::chunks_exact"):
-                            ks.append(tb.node(c["args"][1]).get("int"))
-                        elif (c.get("fn") or "").split("::")[-1] in ("chunks", "rchunks", "windows", "chunks_mut"):
-                            ks.append("non-exact:" + c["fn"].split("::")[-1])
-                    sizes_by_arm[v] = ks
-                break
-        rep.check(sizes_by_arm == {"V0": [O["slot_bytes"]], "V2": [O["word_bytes"], O["word_bytes"]]}, "R12.1", "R12.1|chunk_sizes", "format 0 → chunks_exact(16); format 2 → chunks_exact(10)", p,
-                  "chunk sizes per data format: %s" % sizes_by_arm)
-        out = ev.collect_ifs(p, [Sym("P"), Sym("FMT"), Sym("PAD")])
-        conds = [(ckey(o["cond"]), o["guard"]) for o in out if "cond" in o]
-        ok = len(conds) == 1 and conds[0][0] == "Gt(sym(call:core::slice::<impl [T]>::len(sym(PAD))),%s)" % hex(O["cut_threshold"]) and any("V2" in g for g in conds[0][1])
-        rep.check(ok, "R12.1", "R12.1|cut_threshold", "format 2: the padding is cut off iff it is longer than %d bytes (it would otherwise form a word)" % O["cut_threshold"], p, "cut condition: %s" % conds)
-        # the cut length is len − padding.len()
-        idx = [(bb, t) for bb, t, cal, c in b.calls() if cal and cal.endswith("Index<I> for [T]>::index")]
-        ok = len(idx) == 1
-        if ok:
-            so = show_origin(b.origin(idx[0][1]["args"][1]))
-            ok = "RangeTo" in so and "Sub" in so.replace("(", " ") or ("len" in so and " Sub " in so)
-        rep.check(ok, "R12.1", "R12.1|cut_length", "the cut keeps payload[..len − padding.len()]", p, "cut range: %s" % (show_origin(b.origin(idx[0][1]["args"][1]))[:120] if idx else None))
+        DF = next((a_ for a_ in sorted(f.adts) if a_.endswith("::DataFormat")), "DataFormat")
+        pad_is_len = len(tb.params) == 3 and (tb.params[2].get("ty") or "") == "usize"
+        table = {}
+        for fmt in ("V0", "V2"):
+            for n_ in range(0, 17):
+                ev.call_hooks = [(lambda fn_, r_: (r_ or fn_).endswith("::len"), lambda n, a_, n_=n_: Bits.const(n_, 64) if vkey(a_[0]) == "sym(PAD)" else None)]
+                ev.watch = lambda c: c.split("::")[-1] in ("chunks_exact", "chunks", "rchunks", "windows", "chunks_mut", "rchunks_exact")
+                try:
+                    recs_ = [o for o in ev.collect_ifs(p, [Sym("P"), Agg(DF, fmt, {}), Bits.const(n_, 64) if pad_is_len else Sym("PAD")])
+                             if "call" in o and not any(g in ("false", "not true") for g in o["guard"])]
+                    und_ = [g for o in recs_ for g in o["guard"] if g not in ("true", "not false")]
+                    table[(fmt, n_)] = [(o["call"].split("::")[-1], o["args"][0], o["args"][1]) for o in recs_] if not und_ else "undecided: %s" % und_[:1]
+                except Unsupported as e:
+                    table[(fmt, n_)] = "unevaluable: %s" % e
+                finally:
+                    ev.call_hooks = []
+                    ev.watch = None
+        bad_size, bad_cut, bad_len = [], [], []
+        for (fmt, n_), evs in sorted(table.items()):
+            want_size = hex(O["slot_bytes"] if fmt == "V0" else O["word_bytes"])
+            if not isinstance(evs, list) or len(evs) != 1 or evs[0][0] != "chunks_exact" or evs[0][2] != want_size:
+                bad_size.append(((fmt, n_), evs if not isinstance(evs, list) else [(e_[0], e_[2]) for e_ in evs]))
+                continue
+            whole = evs[0][1] == "sym(P)"
+            cut = fmt == "V2" and n_ > O["cut_threshold"]
+            if whole == cut:
+                bad_cut.append(((fmt, n_), evs[0][1][:100]))
+            elif cut and not ("RangeTo" in evs[0][1] and "len(sym(P))" in evs[0][1] and re.search(r"Sub\(sym\(call:core::slice::<impl \[T\]>::len\(sym\(P\)\)\),%s\)" % hex(n_), evs[0][1])):
+                bad_len.append(((fmt, n_), evs[0][1][:160]))
+        rep.check(not bad_size and len(table) == 34, "R12.1", "R12.1|chunk_sizes", "format 0 → chunks_exact(16); format 2 → chunks_exact(10)", p,
+                  "chunking per (data format, padding length): %s" % bad_size[:4])
+        rep.check(not bad_cut and not bad_size, "R12.1", "R12.1|cut_threshold", "format 2: the padding is cut off iff it is longer than %d bytes (it would otherwise form a word); format 0 is never cut" % O["cut_threshold"], p,
+                  "cut decision per (data format, padding length) deviates: %s" % bad_cut[:4])
+        rep.check(not bad_len and not bad_size, "R12.1", "R12.1|cut_length", "the cut keeps payload[..len − padding.len()]", p, "cut range: %s" % bad_len[:3])
     else:
         rep.missing("R12.1", p)
     pp = L + "preprocess_payload"
